@@ -55,6 +55,12 @@ t("many_locals", "def g():\n" + "\n".join("    v%d = %d" % (i, i) for i in range
 t("shared_const_str", "x = 'shared'; y = ('shared', 'shared')\ndef g():\n    return 'shared'", star=True)
 t("docstring_fn", "def g():\n    'doc string'\n    return 1\nx = g.__doc__")
 
+t("frozenset_shared_two_fns", "def g1(p):\n    return p in {'alpha', 'beta', 'gamma'}\ndef g2(p):\n    if p in {'alpha', 'beta', 'gamma'}:\n        return 1\n    return p in {1.5, 2.5}\ndef g3(p):\n    return p in {1.5, 2.5} or p == 'gamma'\nx = (g1('alpha'), g2(2), g3(1.5))", lo=(3, 2), star=True)
+t("tuple_shared_two_fns", "def g1():\n    return ('alpha', ('beta', 2.5), b'raw')\ndef g2():\n    return ('alpha', ('beta', 2.5), b'raw')\nx = g1() == g2()")
+t("frozenset_case_variants", "x = 'y' in {'y', 'Y', 'yes', 'YES', 'Yes', 'n', 'N'}", lo=(3, 2))
+t("frozenset_mixed_kinds", "x = a in {1, 'one', 2.5, None, (1, 2), b'one'}", lo=(3, 2))
+t("const_equal_distinct", "x = (0.0, -0.0, 1, 1.0, True, (1, 2), (1.0, 2.0), 0, False, 0j)")
+
 # ---- functions --------------------------------------------------------------
 t("fn_pos", "def g(p, q):\n    return p + q\nx = g(1, 2)", star=True)
 t("fn_defaults", "def g(p, q=2, r='s'):\n    return (p, q, r)\nx = g(1)", star=True)
@@ -244,6 +250,15 @@ def indent(src, n):
     return "\n".join(out)
 
 
+# programs that must start with a __future__ import (compiler flags CO_FUTURE_*): module scope only
+FUTURE = [
+    ("future_annotations", (3, 7), HI, "from __future__ import annotations\ndef g(p: int) -> str:\n    return str(p)\nx = g(1)\ny = g.__annotations__['p']"),
+    ("future_barry", (3, 1), HI, "from __future__ import barry_as_FLUFL\nx = 1 <> 2"),
+    ("future_py2_all", (2, 6), (2, 7), "from __future__ import division, print_function, unicode_literals, absolute_import\nx = 1 / 2\ny = 'text'\nprint(x, y)"),
+    ("future_generator_stop", (3, 5), HI, "from __future__ import generator_stop\ndef g():\n    yield 1\nx = list(g())"),
+]
+
+
 def wrap(scope, body):
     if scope == "module":
         return PROLOGUE + body + "\n" + EPILOGUE
@@ -273,6 +288,10 @@ def enumerate_programs(ver, k, scopes=None):
     for (name, lo, hi, star, src) in tl:
         for s in sc:
             yield ("%s@%s" % (name, s), wrap(s, src))
+    for (name, lo, hi, src) in FUTURE:
+        if lo <= ver <= hi:
+            lines = src.split("\n")
+            yield ("%s@module" % name, lines[0] + "\n" + PROLOGUE + "\n".join(lines[1:]) + "\n" + EPILOGUE)
     if k >= 2:
         st = [x for x in tl if x[3]]
         for x1 in st:
